@@ -745,6 +745,9 @@ class Session:
             return ("tie", "model driver failed: " + mnote)
         if note:
             return ("abort", note)
+        msg = handles_distinct(impl)
+        if msg:
+            return ("oracle", msg)
         life = [l for l in impl if "LIFECYCLE-ERROR" in l]
         if life:
             return ("oracle", "component lifecycle violated: " + life[0][:300])
@@ -818,7 +821,7 @@ def stress_parallel_creates(ctx):
         for j in range(3):
             if j == 1:
                 # every task only creates: thousands of id reservations racing on the manager's atomic counter
-                lines.append("parjob tasks=%d tok=%d creates=3" % ((9 if k % 2 == 0 else 4), tok))
+                lines.append("parjob tasks=%d tok=%d creates=6" % ((9 if k % 2 == 0 else 4), tok))
             else:
                 lines.append("parjob tasks=%d tok=%d" % ((9 if k % 2 == 0 else 4), tok))
             tok += 100000
@@ -827,6 +830,35 @@ def stress_parallel_creates(ctx):
         lines.append("teardown")
         out.append(("stress:parallel-creates-%d" % k, "\n".join(lines) + "\n"))
     return out
+
+
+def stress_impl_only(ctx):
+    """creation storms checked on the implementation's own output only (distinct handles, every created handle valid
+    after the job, no sanitizer report): cheap enough to repeat, so that a schedule-dependent reservation race has many chances"""
+    out = []
+    for k in range(12 if ctx.thorough else 5):
+        n = 1500 + 7 * k
+        th = [8, 3, 15, 5, 2][k % 5]
+        lines = ["threads %d" % th] + ["create A"] * n
+        for j in range(4):
+            lines.append("parjob tasks=%d tok=%d creates=%d" % (th + 1, 1000000 * (j + 1), 4 + j))
+        lines += ["valid %d" % (n + i) for i in range(0, 4 * n, 97)]
+        lines.append("teardown")
+        out.append(("stress:creation-storm-%d" % k, "\n".join(lines) + "\n"))
+    return out
+
+
+def check_impl_only(sess, ops):
+    impl, note, err = run_impl(sess.exe, ops, timeout=120)
+    if note:
+        return ("abort", note)
+    msg = handles_distinct(impl)
+    if msg:
+        return ("oracle", msg)
+    bad = [l for l in impl if l == "valid=0"]
+    if bad:
+        return ("oracle", "%d handles returned by creations inside a parallel job are invalid after the job" % len(bad))
+    return None
 
 
 def run_world_check(ctx, cfg):
@@ -856,6 +888,13 @@ def run_world_check(ctx, cfg):
                 hi = hi * 3
             files.append(("random:%d" % i, with_prelude(g.run(rng.randint(lo, hi)))))
     failures = {"oracle": [], "abort": [], "tie": []}
+    storms = cfg["impl_only"](ctx) if (cfg.get("impl_only") and not getattr(ctx, "replay", None)) else []
+    for name, ops in storms:
+        r = check_impl_only(sess, ops)
+        sess.n += 1
+        if r:
+            failures[r[0]].append((name, ops, r[1]))
+            break
     import concurrent.futures as cf
     with cf.ThreadPoolExecutor(max(2, vlib.NPROC - 2)) as ex:
         results = list(ex.map(lambda f: sess.check_file(f[1]), files))
@@ -872,6 +911,11 @@ def run_world_check(ctx, cfg):
             if sig in seen or reported >= 3:
                 continue
             seen.add(sig)
+            if name.startswith("stress:"):
+                ctx.violation(ops, "%s fails on the implementation (%s, %s; schedule dependent - replay may need repeating): %s"
+                              % (ctx.prop, kind, name, msg[:500]))
+                reported += 1
+                continue
             small = shrink(ops, lambda t, k=kind: (lambda x: x is not None and x[0] == k)(sess.check_file(t)), budget=60)
             r2 = sess.check_file(small)
             ctx.violation(small, "%s fails on the implementation (%s, %s): %s" % (ctx.prop, kind, name, (r2 or (0, msg))[1][:500]))
@@ -883,7 +927,7 @@ def run_world_check(ctx, cfg):
         ctx.violation(small, "correspondence model<->implementation broken (%d of %d files; first %s): %s; the property oracle "
                       "(abstract spec vs implementation) found no failing input in %d files"
                       % (len(failures["tie"]), len(files), name, (r2 or (0, msg))[1][:400], len(files)), no_input=True)
-    ctx.cov(evaluations=len(files), distinct_nontrivial=len(sess.nontrivial),
+    ctx.cov(evaluations=len(files) + len(storms), distinct_nontrivial=len(sess.nontrivial), creation_storms=len(storms),
             rule="one case = one op file executed on the real library (ASan+UBSan), on the Lean world model and on the Lean spec; "
                  "corpus first, then seeded structured random histories (generator keeps an exact abstract reference state so that "
                  "histories stay inside the documented contract; a separate malformed stream feeds stale/null/foreign/random handles "
